@@ -639,16 +639,20 @@ func ruleParseErr(c *Ctx) {
 	good := lex != nil
 	why := "ast.Parse is not called"
 	if good {
-		good = false
-		why = "parseText does not return the lexer's Err(): a syntax error is swallowed and a partial tree is used"
-		for _, r := range returnsOf(pt) {
-			if call, ok := r.Results[1].(*ssa.Call); ok {
-				cc := call.Common()
-				if cc.IsInvoke() && cc.Method.Name() == "Err" {
-					good = true
+		why = "parseText does not return the lexer's Err() on every path: a syntax error is swallowed and a partial tree is used (the parser's default reductions store a result before the offending token is diagnosed)"
+		rets := returnsOf(pt)
+		good = len(rets) > 0
+		for _, r := range rets {
+			for _, leaf := range phiLeaves(r.Results[1]) {
+				isErr := false
+				if call, ok := leaf.(*ssa.Call); ok {
+					cc := call.Common()
+					if (cc.IsInvoke() && cc.Method.Name() == "Err") || strings.HasSuffix(calleeName(cc), ".Err") {
+						isErr = true
+					}
 				}
-				if n := calleeName(cc); strings.HasSuffix(n, ".Err") {
-					good = true
+				if !isErr {
+					good = false
 				}
 			}
 		}
